@@ -101,6 +101,12 @@ CHECKS = {
   'note': COMMON_NOTE + 'Assumed: an open descriptor keeps working while its directory is renamed; observed on this file system.',
   'technique': 'Coq proof (sequential fault-oracle model) + real outage scenarios replayed on the model + watchdog exploration of failing sinks',
  },
+ 'C03': {
+  'text': 'Partial. The pooled-buffer protocol of Layout.ToBytes is modelled as an interleaving transition system over any number of goroutines, any schedule and any choice the pool makes (reuse any free buffer or allocate); the sink reads the handed bytes at the moment of its own step. c03_lines_whole_and_unmixed proves, by an 8-clause ownership invariant (c03_ownership_invariant) over all reachable states, that with ToBytes returning its own copy every Write hands the sink exactly the line of its event formatted alone; c03_one_line_per_event proves one Write per finished event and none otherwise (multiset equality); c03_alias_refuted exhibits the 6-step schedule that mixes two events when ToBytes returns the pooled slice (the shape before fix d59291c). '
+          'Tie to the code: a deterministic ownership probe (b1 := ToBytes(e1); b2 := ToBytes(e2); b1 unchanged and not shared, both layouts, bufferCap 1K/4K/10K, line sizes up to 3x the cap incl. the pooled-buffer capacity boundary) decides which return mode the code implements; real concurrent runs (2-64 goroutines, console through a slow chunk-copying writer / file / rolling file) check the sink against the multiset of events formatted alone.',
+  'note': COMMON_NOTE + 'sync.Pool, the Go scheduler, os.File.Write atomicity under O_APPEND and the mutex of the console/file appenders are runtime behaviour the model cannot exhibit; they are sampled by the concurrent harness (thorough: with the race detector).',
+  'technique': 'Coq proof (ownership invariant over all schedules of a pooled-buffer transition system, refutation witness for the aliasing shape) + ownership probe and concurrent differential runs',
+ },
  'C20': {
   'text': 'Partial. c20_no_user_buffer / c20_write_through are proved on a two-level sink model (the property is the absence of a user-space buffer, so the theorems are near-immediate); the weight is the harness: a child process logs through a synchronous logger (file, rolling-file crossing 1 s boundaries, console; both layouts; 1-4 goroutines), acknowledges every returned call on a pipe and is killed with SIGKILL after k acknowledgements or calls os.Exit right after call k; every acknowledged id must be a complete line in the target.',
   'note': COMMON_NOTE + 'Process death, not power loss: the kernel keeps written-but-unsynced data.',
